@@ -13,6 +13,11 @@ identically seeded generator, the global numpy generator reseeded differently an
 draws made before the second run: outputs identical; `np.random.get_state()` (and Python's
 `random` state) unchanged by the operation; no GLOBAL/FRESH event.
 
+Cross-process oracle: the same seeded cases are run by harness/c18_worker.py in three fresh interpreters with PYTHONHASHSEED=0,1,2 (every
+command-line step is its own process, so "repeated" includes another process); a step whose output depends on the per-process
+string-hash salt (iteration over a set of names deciding which draw goes to which item) is reported with `C18:cross-process:<op>`
+and replayed by re-running that one case in several subprocesses.
+
 `rng=None` library fallbacks are outside the property: for them only the tie (the model's
 GLOBAL/FRESH tags) is checked.  The pyro/torch VI model is run through `sampling.sample` twice; its
 dependence on the global state is reported with signature `C18:vi-model-ignores-rng`.
@@ -45,7 +50,10 @@ RULE = ("random 2-treatment screens (1-3 samples, 3-6 treatments + control, one-
         "the CLI mains with --seed (prepare_retrospective_simulation, calculate_scores, select_next_plate, train_model, evaluate_model); "
         "seed 0 (the default of every --seed, the falsy boundary) in about a fifth of the cases; SeedSequence() without entropy is "
         "recorded as a FRESH source; each run twice (global generator reseeded differently, unrelated "
-        "global draws interleaved). Shape parameters of the model trace are computed from the operation's inputs, except the "
+        "global draws interleaved). Cross-process stream: a list of seeded cases (every generator -- PairwisePlateGenerator on all-masked screens with "
+        ">= 2 samples that have single-drug rows and several candidate plates --, smoothers, cover, hold-outs, RandomScorer, DBAL sub-sampling, policy, "
+        "select_next_plate, score_chunk, sampling.sample of both Gibbs models, prepare_retrospective_simulation.main() --seed) is executed by "
+        "harness/c18_worker.py in one fresh interpreter per PYTHONHASHSEED in {0,1,2}; the digests must agree. Shape parameters of the model trace are computed from the operation's inputs, except the "
         "value-dependent ones (greedy cover completion rounds, ensemble smoother truncations) which are taken from the observed "
         "event count. Non-trivial: the operation completed and made at least one draw.")
 
@@ -1175,6 +1183,7 @@ def gen_xproc_cases(rng, scale):
                 c["rng_given"] = True
             if op == "sample_mcmc":
                 c.update(n_thetas=1, n_burnin=1, thin=1)
+                c["model"]["kind"] = ["combo", "inter"][len(cases) % 2]          # both Gibbs models
             cases.append(c)
     for i in range(6 * scale):             # PairwisePlateGenerator with >= 2 samples that have single-drug rows and several candidate plates
         c = {"op": "generator", "seed": (0 if i == 0 else rng.getrandbits(31)), "gseed": rng.getrandbits(31), "screen": gen_pairwise_screen(rng),
@@ -1316,7 +1325,7 @@ def run(ctx, res):
             if 0 in (case.get("seed"), case.get("s1"), case.get("s2")):
                 res.count("seed0." + op)
     # cross-process stream: the same seeded cases in one fresh interpreter per PYTHONHASHSEED
-    xcases = gen_xproc_cases(ctx.subrng("c18x"), 1 if ctx.tier == "quick" else 6)
+    xcases = gen_xproc_cases(ctx.subrng("c18x"), 2 if ctx.tier == "quick" else 8)
 
     def xcount(case, ds):
         res.evaluations += 1
